@@ -543,8 +543,12 @@ func (e *c5e) closedEllipsisConj() bool {
 				return true
 			}
 			// ... or two sibling embeddings, one with `...` at its own level, one closed
+			// (or one embedding that is closed and has `...` at its own level)
 			if d.v.hasEllTop() {
 				ell = true
+				if d.v.topClosers() > 0 {
+					cls = true
+				}
 			} else if d.v.topClosers() > 0 {
 				cls = true
 			}
@@ -612,7 +616,7 @@ func (e *c5e) repair(class string, underHidden bool) *c5e {
 		if n.op == '{' {
 			cls, hoist := false, false
 			for _, d := range n.decls {
-				if d.kind == 'e' && !d.v.hasEllTop() && d.v.topClosers() > 0 {
+				if d.kind == 'e' && d.v.topClosers() > 0 {
 					cls = true
 				}
 			}
@@ -701,9 +705,20 @@ func c5shapeClasses(schema *c5e) []string {
 
 // c5attribute returns the known-finding class of an ACCEPTED case, or "".
 func c5attribute(schema, data *c5e) string {
-	for _, k := range c5shapeClasses(schema) {
+	ks := c5shapeClasses(schema)
+	for _, k := range ks {
 		if c5eval(c5source(schema.repair(k, false), data), false).class == "err" {
 			return k
+		}
+	}
+	if len(ks) > 1 {
+		// several known shapes in one schema: all rewrites together
+		r := schema
+		for _, k := range ks {
+			r = r.repair(k, false)
+		}
+		if c5eval(c5source(r, data), false).class == "err" {
+			return ks[0]
 		}
 	}
 	return ""
